@@ -640,14 +640,14 @@ class Interp:
             if p not in local:
                 j = i - (len(params) - ndef)
                 if j >= 0:
-                    local[p] = self.eval(a.defaults[j], env_for_defaults)
+                    local[p] = self.default_value(fnode, p, a.defaults[j], env_for_defaults)
                 else:
                     raise self.exc('TypeError', 'missing argument %s' % p)
         for p, d in zip(a.kwonlyargs, a.kw_defaults):
             if p.arg in kwargs:
                 local[p.arg] = kwargs.pop(p.arg)
             elif d is not None:
-                local[p.arg] = self.eval(d, env_for_defaults)
+                local[p.arg] = self.default_value(fnode, p.arg, d, env_for_defaults)
             else:
                 raise self.exc('TypeError', 'missing kw-only argument')
         if a.kwarg is not None:
@@ -655,6 +655,18 @@ class Interp:
         elif kwargs:
             raise self.exc('TypeError', 'unexpected keyword argument %s' % list(kwargs))
         return local
+
+    def default_value(self, fnode, pname, expr, env):
+        """python evaluates a default argument ONCE, when the function is defined: a mutable default is one object shared by every call
+        that omits the argument; writes to it are effects on shared state"""
+        cache = self.__dict__.setdefault('_defaults', {})
+        key = (id(fnode), pname)
+        if key not in cache:
+            v = self.eval(expr, env)
+            cache[key] = v
+            if isinstance(v, (list, dict)) or type(v).__name__ in ('SetVal', 'DefaultDict'):
+                self.global_ids[id(v)] = 'default argument %s of %s' % (pname, getattr(fnode, 'name', '<lambda>'))
+        return cache[key]
 
     def call_func(self, f, args, kwargs):
         self.depth += 1
